@@ -322,6 +322,24 @@ func genOp(c *simkit.Choices, sh *shared, taskIdx int) *op {
 			j := c.N(len(sh.foldVals))
 			val, tname = sh.foldVals[j], sh.foldTypes[j].Name
 		}
+		if c.N(6) == 0 {
+			// every task its OWN value of one of a few types whose folding goes
+			// through scratch copies (pointer-receiver IsZero/Fold on values
+			// that are not addressable, inline and omitempty resolution):
+			// the same code on different data at the same time
+			mine := 100000*(taskIdx+1) + c.N(1000)
+			o := model.Opts{A: model.OptInt{Set: true, V: mine}, B: model.OptInt{Set: c.Bool(), V: mine + 1}, P: &model.OptInt{Set: true, V: mine + 2}, N: mine}
+			switch c.N(4) {
+			case 0:
+				val, tname = o, "Opts(own)"
+			case 1:
+				val, tname = []model.Opts{o, o}, "[]Opts(own)"
+			case 2:
+				val, tname = map[string]interface{}{"o": o}, "map[string]interface{}{Opts}(own)"
+			default:
+				val, tname = []interface{}{o, model.OmitIfc{ID: mine, V: model.ZeroS{X: mine}, W: model.PlainS{X: mine}}}, "[]interface{}{Opts,OmitIfc}(own)"
+			}
+		}
 		if c.N(4) == 0 {
 			// a fixed pool of option-sensitive inputs, the same in every task and
 			// run: whatever is remembered per input text (not per encoder
